@@ -1,4 +1,5 @@
 """C06 — an accepted program never crashes the interpreter."""
+import re
 from ..guards import cmp_facts, ne, sh, upper_bound
 from ..mir import parent_fn
 from ..panics import collect_sites
@@ -326,9 +327,75 @@ def r1_r2_r7(ctx):
         ctx.bad("R2|arity", "src/resolver.rs", "arity asserts in the call paths are not backed by resolver checks: " + why)
 
 
+MEMBER_ENUMS = {"StringBuiltin": "builtins::string::StringBuiltin", "NumberBuiltin": "builtins::number::NumberBuiltin", "ArrayBuiltin": "builtins::array::ArrayBuiltin",
+                "ProcessCommandBuiltin": "builtins::process::ProcessCommandBuiltin", "ProcessResultBuiltin": "builtins::process::ProcessResultBuiltin"}
+
+
+def static_member_arity(ctx):
+    """Does the resolver reject every method call whose argument count no built-in method of that name takes - also when the
+    receiver's type is not known statically?  Returns (holds, arity_of_variant {(enum, variant): n}, notes).
+
+    Three facts, each checked on the current tree:
+     (1) typed receivers: an emit_error(FunctionCallArity) guarded by len(args) != arity(builtin);
+     (2) dynamic receivers: an emit_error(FunctionCallArity) on the path where the receiver type is Dynamic, guarded by
+         `!arities.contains(&Some(len(args)))`, where from_name of all five method families dominates the test;
+     (3) the name -> arity relation is a function: every method of a given name, in whichever family, takes the same number
+         of arguments (so "some method of that name takes len(args)" gives the arity of the one the runtime finds)."""
+    from ..tables import abstract_eval, hir_str_table, mir_enum_table
+    from .c09 import emit_sites, CE
+    notes = []
+    arity = {}
+    by_name = {}
+    for en, path in MEMBER_ENUMS.items():
+        fnm = ctx.lib.fns.get("<%s as builtins::Builtin>::from_name" % path)
+        ar = ctx.lib.fns.get("<%s as builtins::Builtin>::arity" % path)
+        if fnm is None or ar is None:
+            return False, {}, ["family %s: from_name / arity not found" % en]
+        names = hir_str_table(fnm) or {}
+        atab = mir_enum_table(ar, 1)
+        for name, variant in names.items():
+            a = (atab.get(variant) if atab else abstract_eval(ar, 1, 0)) or ["?"]
+            try:
+                k = int(str(a[0]).replace("_usize", ""))
+            except ValueError:
+                return False, {}, ["arity of %s::%s not a constant (%s)" % (en, variant, a[0])]
+            arity[(en, variant)] = k
+            by_name.setdefault(name, set()).add(k)
+    clash = {n_: sorted(v) for n_, v in by_name.items() if len(v) > 1}
+    if clash:
+        return False, arity, ["methods of one name with different arities: %s" % clash]
+    ce = ctx.need(CE)
+    typed = dyn = None
+    for (fshort, kind, cons, fn, c) in emit_sites(ctx):
+        if fshort != "check_expr" or kind != "FunctionCallArity":
+            continue
+        blob = " ∧ ".join(cons)
+        if "∈Member" not in blob:
+            continue
+        if "Ne(len(" in blob and "arity(" in blob and "∈true" in blob:
+            typed = (fn, c)
+        if "contains(" in blob and re.search(r"contains\([^∧]*len\(expr@Call\.args\.args\)[^∧]*∈false", blob):
+            fams = {x for x in MEMBER_ENUMS for cc in fn.calls() if (cc.callee or "") == "<%s as builtins::Builtin>::from_name" % MEMBER_ENUMS[x] and fn.dominates(cc.block, c.block)}
+            if fams == set(MEMBER_ENUMS):
+                dyn = (fn, c)
+            else:
+                notes.append("dynamic-receiver arity test does not cover %s" % sorted(set(MEMBER_ENUMS) - fams))
+    if typed is None:
+        notes.append("no arity test for statically typed receivers")
+    if dyn is None:
+        notes.append("no arity test on the dynamic-receiver path")
+    return (typed is not None and dyn is not None), arity, notes
+
+
 def r3_args_index(ctx):
-    """Constant indexes into the argument list need a dominating length check (arity is static only for typed receivers)."""
+    """Constant indexes into the argument list need a dominating length check, or the resolver's guarantee that the argument
+    count equals the arity of every built-in method of that name (for typed and for dynamic receivers)."""
     n = 0
+    holds, arity_of, why_not = static_member_arity(ctx)
+    if holds:
+        ctx.ok("static-member-arity", "src/resolver.rs", "argument count of a method call is checked for typed and dynamic receivers; name -> arity is a function over all method families")
+    else:
+        ctx.note("no static arity guarantee for method calls: %s" % "; ".join(why_not))
     for fn in [f for f in judged_bodies(ctx) if f.file == "src/runtime.rs"]:
         for b in sorted(fn.live):
             t = fn.blocks[b]["t"]
@@ -353,6 +420,16 @@ def r3_args_index(ctx):
             key = "%s|%s|[%s]#%d" % (parent_fn(fn.id), ",".join(arm), sh(ix), ordn + 1)
             if st == "ok" or any(op == "Eq" and (a == ln or b2 == ln) for op, a, b2, S in facts):
                 ctx.ok(key, fn.where(b), "guarded by a length test")
+                continue
+            # the arm's built-in(s) and their arity
+            enum = None
+            for S, al in fn.constraints(b):
+                si = fn.switch_info(S)
+                if si["kind"] == "discr" and "Builtin" in si["ty"]:
+                    enum = si["ty"].split("::")[-1]
+            k = ix[1] if isinstance(ix[1], int) else (int(re.sub(r"\D", "", str(ix[1])) or -1))
+            if holds and enum in MEMBER_ENUMS and arm and all((enum, v) in arity_of and k < arity_of[(enum, v)] for v in arm):
+                ctx.ok(key + "|static-arity", fn.where(b), "index %d < arity %s of %s, and the resolver rejects every method call whose argument count is not that arity" % (k, sorted({arity_of[(enum, v)] for v in arm}), ",".join(arm)))
             else:
                 ctx.bad(key, fn.where(b), "`%s[%s]` in the %s arm has no dominating length check; arity is only checked statically when the receiver's type is known" % (sh(ln).replace("len(", "").rstrip(")"), sh(ix), ",".join(arm)))
     ctx.floor("constant argument-list indexes", n, 12)
@@ -476,7 +553,22 @@ def r8_unsigned_subtraction(ctx):
     ctx.floor("unsigned subtractions examined", n, 3)
 
 
-RULES = [("C06-R1", r1_r2_r7), ("C06-R3", r3_args_index), ("C06-R4", r4_unchecked), ("C06-R5", r5_binding_expects), ("C06-R8", r8_unsigned_subtraction)]
+def r9_no_failing_index_in_string_builtins(ctx):
+    """A slice or index that can leave its text panics the interpreter just like an explicit unreachable!: the relational-guard
+    rule of C13-R1 over tw.rs / replace.rs / string.rs / array.rs is part of this property too."""
+    from .c13 import r1_no_failing_index
+    r1_no_failing_index(ctx)
+
+
+def r10_static_tables_describe_the_runtime(ctx):
+    """The checker decides what is accepted from the built-ins' name / arity / return-type tables; a table entry that promises
+    more than the run-time arm delivers (reverse() typed as an array while it returns null) lets a program through that ends in
+    an unreachable! (shared with C01-R5: the tables equal the documented signatures, which the dispatch arms implement)."""
+    from .c01 import r5_builtin_tables
+    r5_builtin_tables(ctx)
+
+
+RULES = [("C06-R1", r1_r2_r7), ("C06-R3", r3_args_index), ("C06-R4", r4_unchecked), ("C06-R5", r5_binding_expects), ("C06-R8", r8_unsigned_subtraction), ("C06-R9", r9_no_failing_index_in_string_builtins), ("C06-R10", r10_static_tables_describe_the_runtime)]
 
 EXPLANATION = (
     "Static analysis of the type-checked MIR of every body reachable from Runtime::run/run_with_analysis in the script-facing "
